@@ -103,8 +103,9 @@ type Ctx struct {
 	// cleanly with exhaustive=false, never with a violation.
 	Deadline time.Time
 
-	mu sync.Mutex
-	p  *Partial
+	mu    sync.Mutex
+	p     *Partial
+	known map[string]knownFinding
 }
 
 // Thorough reports whether the thorough tier was requested.
@@ -225,11 +226,21 @@ func (c *Ctx) Violate(pr Problem, cs any) {
 	c.p.Violations[pr.Key] = &Violation{Key: pr.Key, What: pr.What, Case: b, Count: 1}
 }
 
-// NumViolations returns the number of distinct violation keys so far.
+// NumViolations returns the number of distinct violation keys so far that
+// are not listed as open known findings.
 func (c *Ctx) NumViolations() int {
 	c.mu.Lock()
 	defer c.mu.Unlock()
-	return len(c.p.Violations)
+	if c.known == nil {
+		c.known = loadKnown(c.ID)
+	}
+	n := 0
+	for k := range c.p.Violations {
+		if _, ok := c.known[k]; !ok {
+			n++
+		}
+	}
+	return n
 }
 
 // Catch runs f and converts a panic into a string ("" = no panic).
